@@ -161,8 +161,6 @@ func TString(t *ast.Type) string { panic("ghost") }
 //@ loop 0 invariant[owners] forallT(T, string, forallT(n, string, routed(tm, T, n) ==> exists(j, 0, it + 1, route(tm, T, n) == inputs[j].URL))) @using owners, frame-fields, tm
 //@ end
 
-
-
 //@ define wfDefs(m map[string]*ast.Definition) bool = forallT(k, string, has(m, k) ==> m[k] != nil)
 //@ define implementsNode(d *ast.Definition) bool = exists(j, 0, len(d.Interfaces), d.Interfaces[j] == "Node")
 
@@ -180,6 +178,8 @@ func TString(t *ast.Type) string { panic("ghost") }
 //@ ensures[res] err == nil ==> res != nil && fresh(res)
 //@ ensures[overlap-rejected] err == nil ==> forall(i, 0, len(b.Fields), !hasprefix(b.Fields[i].Name, "__") && !nodeEntry(b.Fields[i]) ==> forall(j, 0, len(a.Fields), a.Fields[j].Name != b.Fields[i].Name)) @props C05
 //@ ensures[fields-kept] err == nil ==> len(res.Fields) >= len(a.Fields) && forall(j, 0, len(a.Fields), res.Fields[j] == a.Fields[j]) @props C03
+//@ ensures[b-kept] err == nil ==> forall(i, 0, len(b.Fields), !hasprefix(b.Fields[i].Name, "__") ==> exists(j, 0, len(res.Fields), res.Fields[j].Name == b.Fields[i].Name)) @using b-kept @props C03
+//@ loop 0 invariant[b-kept] forall(i, 0, it, !hasprefix(b.Fields[i].Name, "__") ==> exists(j, 0, len(fields), fields[j].Name == b.Fields[i].Name)) @using b-kept
 //@ modifies-assumed fresh, elems(*ast.FieldDefinition)
 //@ loop 0 invariant[prefix] len(fields) >= len(a.Fields) && forall(j, 0, len(a.Fields), fields[j] == a.Fields[j]) && ((base(fields) == base(a.Fields) && off(fields) == off(a.Fields)) || fresh(fields))
 //@ loop 0 invariant[checked] forall(i, 0, it, !hasprefix(b.Fields[i].Name, "__") && !nodeEntry(b.Fields[i]) ==> forall(j, 0, len(a.Fields), a.Fields[j].Name != b.Fields[i].Name)) @using checked, prefix
